@@ -88,3 +88,18 @@ Definition no_shadow (classes : list (string * list string)) (mixin_defined obje
     | AttrError => false
     | _ => true
     end) str_dir) classes.
+
+(* the names of dir(str) that a node class may define itself: what every class has (its own rendering, constructor,
+   docstring) and the few tree operations / attributes that share a name with a str method *)
+Definition redefinable_by_all : list string := ["__doc__"; "__init__"; "__str__"; "__module__"].
+Definition redefinable : list (string * list string) :=
+  [("Wikicode", ["index"; "replace"]); ("ExternalLink", ["title"]); ("Heading", ["title"]); ("Wikilink", ["title"]);
+   ("Template", ["__getitem__"])].
+
+Definition allowed_for (cls : string) : list string :=
+  redefinable_by_all ++ flat_map (fun p => if String.eqb (fst p) cls then snd p else []) redefinable.
+
+(* every name of dir(str) that a class defines itself is on that list: any other str behaviour comes from the mixin
+   (explicit magic method or delegation) and so equals str's *)
+Definition only_documented_redefinitions (classes : list (string * list string)) (str_dir : list string) : bool :=
+  forallb (fun cls => forallb (fun name => negb (mem name str_dir) || mem name (allowed_for (fst cls))) (snd cls)) classes.
